@@ -34,7 +34,7 @@ pub const SPEC: PropSpec = PropSpec {
     ],
     run,
     replay,
-    thorough_layers: &[],
+    thorough_layers: &[("fuzz", 60)],
     quick_layers: &[],
     post: Some(post_cfgs),
 };
@@ -272,8 +272,21 @@ fn run(ctx: &mut Ctx) {
 }
 
 fn replay(case: &Value, _ctx: &mut Ctx) -> Option<String> {
+    if let Some(h) = case.get("fuzz").and_then(|v| v.as_str()) {
+        return fuzz_entry(&crate::ctx::unhex(h)).err();
+    }
     let input = input_from_json(&case["input"]);
     let cfg = CfgHist::from_json(&case["cfg"]);
     let mut loc = Local::default();
     lockstep(&input, &cfg, &mut loc).err()
+}
+
+/// libFuzzer entry: first byte = configuration bits, rest = input
+pub fn fuzz_entry(data: &[u8]) -> Result<(), String> {
+    if data.is_empty() {
+        return Ok(());
+    }
+    let cfg = CfgHist::fixed(data[0] & 0x7F);
+    let mut loc = Local::default();
+    lockstep(&data[1..], &cfg, &mut loc)
 }
